@@ -80,6 +80,8 @@ pub enum RMut {
 	ProofToOther,
 	DestUnknown,
 	DestAcct1,
+	/// destination acct1 named while a third, never-used account is the active one
+	DestAcct1ViaFresh,
 	RAddr,
 	FeeZero,
 	KernelFeatures(u8),
@@ -150,6 +152,7 @@ fn alphabet() -> Vec<Req> {
 		RMut::ProofToOther,
 		RMut::DestUnknown,
 		RMut::DestAcct1,
+		RMut::DestAcct1ViaFresh,
 		RMut::RAddr,
 		RMut::FeeZero,
 		RMut::KernelFeatures(1),
@@ -281,6 +284,11 @@ impl Model for M {
 	fn init(&self, dir: &str) {
 		let mut w = World::create(dir, &[("A", "A"), ("B", "B"), ("M", "M")]);
 		w.w("A").create_account("acct1").unwrap();
+		// acct1 holds outputs of its own; "fresh" never derived a key
+		w.w("A").create_account("fresh").unwrap();
+		w.w("A").set_account("acct1").unwrap();
+		w.mine_n("A", 2);
+		w.w("A").set_account("default").unwrap();
 		w.mine_n("A", 4);
 		w.mine_n("B", 5);
 		w.mine_n("M", 3);
@@ -470,6 +478,10 @@ impl Model for M {
 					}
 					RMut::DestUnknown => dest = Some("nope".into()),
 					RMut::DestAcct1 => dest = Some("acct1".into()),
+					RMut::DestAcct1ViaFresh => {
+						dest = Some("acct1".into());
+						t.set_account("fresh").unwrap();
+					}
 					RMut::RAddr => r_addr = Some("http://127.0.0.1:1".to_owned()),
 					RMut::FeeZero => s.fee_fields = grin_core::core::FeeFields::zero(),
 					RMut::KernelFeatures(n) => {
@@ -550,6 +562,7 @@ impl Model for M {
 			}
 		};
 		drop(api);
+		t.set_account("default").unwrap();
 		// ---- oracle
 		let after = full(t, &ids);
 		let info_after = t.info(false, 1).unwrap().1;
